@@ -195,6 +195,8 @@ theorem Room.step {s : SlotBelt} (h : Room s) (op : Op) : Room (s.step op).1 := 
   cases op with
   | reservePut p => exact Room.trigPut (h'.congr rfl rfl rfl rfl)
   | reserveGet p => exact Room.trigGet (h'.congr rfl rfl rfl rfl)
+  | reservePutP p pr => exact Room.trigPut (h'.congr rfl rfl rfl rfl)
+  | reserveGetP p pr => exact Room.trigGet (h'.congr rfl rfl rfl rfl)
   | put p t x => exact h'.put p t x
   | get p t => exact h'.get p t
   | cancelPut t => exact h'.cancelPut t
